@@ -1918,6 +1918,9 @@ fn part_b(a: &Args, out: &mut Out) {
     let k_children = if thorough { 5 } else { 3 };
     let seeds: Vec<u64> = if thorough { (a.seed..a.seed + 20).collect() } else { (a.seed..a.seed + 8).collect() };
     let only = std::env::var("C20_ONLY").ok();
+    if let Ok(r) = std::env::var("C20_SRC_ROOT") {
+        out.violation("C20:harness:partial-run", &format!("C20_SRC_ROOT={} is set: the source scan read another tree than the one this binary was built against", r), json!({"C20_SRC_ROOT": r}));
+    }
     if let Some(o) = &only {
         // a development aid; a run that skipped families must never count as a passing check
         out.violation("C20:harness:partial-run", &format!("C20_ONLY={} is set: only some harness families were run", o), json!({"C20_ONLY": o}));
